@@ -119,53 +119,66 @@ pub struct SynthFont {
     pub marklig: Option<[usize; 3]>,
     /// glyph that only the FeatureVariations substitution can produce
     pub fv_marker: Option<u16>,
+    // ---- second strengthening (c02_shape/synth2.rs)
+    /// abstract morx program (enc_morx.rs); a font with morx and no GSUB is shaped through morx
+    pub morx: Option<Value>,
+    /// the font is shaped with the text-class strings up to this length only
+    pub max_len: usize,
+    /// thread-CPU budget of one call sequence on this font, in milliseconds
+    pub budget_ms: u64,
+    /// seeded byte corruptions of the font are part of the plan
+    pub corruptible: bool,
+    /// foreign script tags are part of the plan
+    pub aliens: bool,
+    /// facts about the bytes the plan-level (input side) vacuity counters are computed from
+    pub tags: Vec<String>,
 }
 
-fn cov(gs: &[u16]) -> Value {
+pub fn cov(gs: &[u16]) -> Value {
     json!({"fmt": 1, "glyphs": gs})
 }
-fn pcov(gs: &[u16]) -> Value {
+pub fn pcov(gs: &[u16]) -> Value {
     json!({"f": 1, "g": gs})
 }
-fn sl(ty: i64, flag: u16, subs: Vec<Value>) -> Value {
+pub fn sl(ty: i64, flag: u16, subs: Vec<Value>) -> Value {
     json!({"type": ty, "etype": 0, "flag": flag, "mfs": 0, "subs": subs})
 }
-fn single(flag: u16, from: &[u16], to: &[u16]) -> Value {
+pub fn single(flag: u16, from: &[u16], to: &[u16]) -> Value {
     sl(1, flag, vec![json!({"fmt": 2, "cov": cov(from), "subst": to})])
 }
-fn multiple(flag: u16, from: &[u16], seqs: &[&[u16]]) -> Value {
+pub fn multiple(flag: u16, from: &[u16], seqs: &[&[u16]]) -> Value {
     sl(2, flag, vec![json!({"fmt": 1, "cov": cov(from), "seqs": seqs})])
 }
 fn alternate(from: &[u16], alts: &[&[u16]]) -> Value {
     sl(3, 0, vec![json!({"fmt": 1, "cov": cov(from), "alts": alts})])
 }
 /// ligatures that all start with `first`: (ligature glyph, following components)
-fn ligature(flag: u16, first: u16, ligs: &[(u16, &[u16])]) -> Value {
+pub fn ligature(flag: u16, first: u16, ligs: &[(u16, &[u16])]) -> Value {
     let set: Vec<Value> = ligs.iter().map(|(l, c)| json!({"lig": l, "comps": c})).collect();
     sl(4, flag, vec![json!({"fmt": 1, "cov": cov(&[first]), "sets": [set]})])
 }
-fn feat(tag: &str, lookups: &[usize]) -> Value {
+pub fn feat(tag: &str, lookups: &[usize]) -> Value {
     json!({"tag": tag, "lookups": lookups})
 }
-fn gsub_prog(features: Vec<Value>, lookups: Vec<Value>) -> Value {
+pub fn gsub_prog(features: Vec<Value>, lookups: Vec<Value>) -> Value {
     json!({"features": features, "lookups": lookups, "vars": [], "langs": ["ENG "]})
 }
-fn pl(ty: i64, flag: u16, subs: Vec<Value>) -> Value {
+pub fn pl(ty: i64, flag: u16, subs: Vec<Value>) -> Value {
     json!({"ty": ty, "flag": flag, "ext": false, "mfs": 0, "subs": subs})
 }
-fn anc(x: i64, y: i64) -> Value {
+pub fn anc(x: i64, y: i64) -> Value {
     json!({"f": 1, "x": x, "y": y})
 }
 fn null_anchor() -> Value {
     json!({"f": 0, "x": 0, "y": 0})
 }
-fn val(xp: i64, yp: i64, xa: i64, ya: i64) -> Value {
+pub fn val(xp: i64, yp: i64, xa: i64, ya: i64) -> Value {
     json!({"xp": xp, "yp": yp, "xa": xa, "ya": ya})
 }
-fn pos_single(flag: u16, gs: &[u16], vf: i64, v: Value) -> Value {
+pub fn pos_single(flag: u16, gs: &[u16], vf: i64, v: Value) -> Value {
     pl(1, flag, vec![json!({"f": 1, "cov": pcov(gs), "vf": vf, "v": v})])
 }
-fn gpos_prog(features: Vec<Value>, lookups: Vec<Value>) -> Value {
+pub fn gpos_prog(features: Vec<Value>, lookups: Vec<Value>) -> Value {
     json!({"features": features, "lookups": lookups})
 }
 
@@ -180,7 +193,7 @@ fn gdef_classes() -> Vec<i64> {
     }
     c
 }
-fn gdef_full() -> Value {
+pub fn gdef_full() -> Value {
     let mut att = vec![0i64; NUM_GLYPHS as usize];
     att[G_ACUTE as usize] = 1;
     att[G_DOTBELOW as usize] = 2;
@@ -211,15 +224,16 @@ const C_ALT: &[u8] = &[7, 10, 1];
 const C_VERT: &[u8] = &[6, 1, 7];
 const C_CUSTOM: &[u8] = &[2, 3, 8, 0];
 
-fn base(name: String, family: &'static str, alphabet: &'static [&'static str], configs: &'static [u8]) -> SynthFont {
+pub fn base(name: String, family: &'static str, alphabet: &'static [&'static str], configs: &'static [u8]) -> SynthFont {
     SynthFont {
         name, family, alphabet, configs, wf: true, gdef: Some(gdef_full()), gsub: None, gpos: None, kern: None, vmetrics: false,
-        fvar: false, has_frac: false, marklig: None, fv_marker: None,
+        fvar: false, has_frac: false, marklig: None, fv_marker: None, morx: None, max_len: usize::MAX, budget_ms: 2000, corruptible: true,
+        aliens: true, tags: Vec::new(),
     }
 }
 
 /// the ordinary ligature lookup f f f f / f f f / f f / f i, longest first
-fn liga_f(flag: u16) -> Value {
+pub fn liga_f(flag: u16) -> Value {
     ligature(flag, G_F, &[(G_LIG4, &[G_F, G_F, G_F]), (G_LIG3, &[G_F, G_F]), (G_LIG2, &[G_F]), (G_LIG3, &[G_I])])
 }
 fn ccmp_decompose() -> Value {
@@ -744,6 +758,9 @@ pub fn build(f: &SynthFont) -> Vec<u8> {
     }
     if let Some(k) = &f.kern {
         t.extra_tables.push(("kern".into(), ep::kern(k)));
+    }
+    if let Some(m) = &f.morx {
+        t.extra_tables.push(("morx".into(), super::enc_morx::morx(m)));
     }
     if f.vmetrics {
         t.extra_tables.push(("vhea".into(), vhea(5)));
